@@ -1,6 +1,7 @@
 package rules
 
 import (
+	"go/constant"
 	"go/ast"
 	"go/token"
 	"go/types"
@@ -186,8 +187,9 @@ func c15R2(p *core.Program, r *core.Report) {
 		r.Anchor(rule, "pkg/types.(*TypeRef).String / ParseTypeRef")
 		return
 	}
-	written := constArgsOf(w.Info(), w.Body, "(*strings.Builder).WriteByte", "(*strings.Builder).WriteString", "(*strings.Builder).WriteRune",
-		"(*bytes.Buffer).WriteByte", "(*bytes.Buffer).WriteString", "(*bytes.Buffer).WriteRune")
+	// every constant piece of text the printer can emit, however it is put together (builder writes,
+	// concatenation, strings.Join separator): the set of its bytes is the printer's delimiter set
+	written := printerDelimiters(w)
 	want := []string{",", ".", "[", "]"}
 	r.Check(strings.Join(written, "") == strings.Join(want, ""), rule, w, "delimiters written by the printer", w.Node().Pos(),
 		"constant delimiters written are exactly . [ , ]",
@@ -195,8 +197,8 @@ func c15R2(p *core.Program, r *core.Report) {
 	// reader side: Index "[", LastIndex "]", LastIndex ".", switch cases
 	info := rd.Info()
 	_, clauses := switchOnConsts(info, rd.Body, '[', ']', ',')
-	idx := constArgsOf(info, rd.Body, "strings.Index")
-	last := constArgsOf(info, rd.Body, "strings.LastIndex")
+	idx := constArgsOf(info, rd.Body, "strings.Index", "strings.IndexByte", "strings.IndexRune", "strings.Cut")
+	last := constArgsOf(info, rd.Body, "strings.LastIndex", "strings.LastIndexByte")
 	okReader := clauses != nil && strings.Join(idx, "") == "[" && strings.Join(last, "") == ".]"
 	r.Check(okReader, rule, rd, "delimiters read by the parser", rd.Node().Pos(),
 		"parser searches '[' (first), ']' (last), '.' (last) and switches on '[' ']' ','",
@@ -233,8 +235,18 @@ func c15R3(p *core.Program, r *core.Report) {
 			found, guarded := false, false
 			var pos token.Pos = f.Node().Pos()
 			g := graph(f)
-			for _, call := range core.CallsTo(info, f.Body, false, callee) {
-				if len(call.Args) != 2 || !constStrIs(info, call.Args[1], delim) {
+			// index forms: Index / IndexByte (first), LastIndex / LastIndexByte (last), result used only where > 0
+			callees := []string{callee}
+			if callee == "strings.Index" {
+				callees = append(callees, "strings.IndexByte", "strings.IndexRune")
+			} else {
+				callees = append(callees, "strings.LastIndexByte")
+			}
+			isDelim := func(e ast.Expr) bool {
+				return constStrIs(info, e, delim) || (len(delim) == 1 && constIs(info, e, int64(delim[0])))
+			}
+			for _, call := range core.CallsTo(info, f.Body, false, callees...) {
+				if len(call.Args) != 2 || !isDelim(call.Args[1]) {
 					continue
 				}
 				found = true
@@ -268,8 +280,75 @@ func c15R3(p *core.Program, r *core.Report) {
 					guarded = true
 				}
 			}
+			// the Cut form (first occurrence only): head, tail, found := strings.Cut(s, delim); the parts are used
+			// only where `found` holds and the head is non-empty (= index > 0)
+			if callee == "strings.Index" {
+				for _, call := range core.CallsTo(info, f.Body, false, "strings.Cut") {
+					if len(call.Args) != 2 || !isDelim(call.Args[1]) {
+						continue
+					}
+					as, ok := g.PointOf(call).Node().(*ast.AssignStmt)
+					if !ok || len(as.Lhs) != 3 || len(as.Rhs) != 1 {
+						continue
+					}
+					found = true
+					pos = call.Pos()
+					head, tail, fv := core.VarOf(info, as.Lhs[0]), core.VarOf(info, as.Lhs[1]), core.VarOf(info, as.Lhs[2])
+					uses, okUses := 0, true
+					ast.Inspect(f.Body, func(n ast.Node) bool {
+						id, isID := n.(*ast.Ident)
+						if !isID || info.Uses[id] == nil {
+							return true
+						}
+						o := info.Uses[id]
+						if (head == nil || o != types.Object(head)) && (tail == nil || o != types.Object(tail)) {
+							return true
+						}
+						// uses inside the guarding condition itself do not count
+						facts := g.FactsAt(g.PointOf(id))
+						inCond := false
+						for _, br := range g.Branches() {
+							if br.Cond.Pos() <= id.Pos() && id.End() <= br.Cond.End() {
+								inCond = true
+							}
+						}
+						if inCond {
+							return true
+						}
+						uses++
+						okFound, okHead := false, false
+						for _, fct := range facts {
+							if fv != nil && core.VarOf(info, fct.Cond) == fv && fct.Val {
+								okFound = true
+							}
+							if b, isBin := ast.Unparen(fct.Cond).(*ast.BinaryExpr); isBin && head != nil {
+								if core.VarOf(info, b.X) == head && constStrIs(info, b.Y, "") && (b.Op == token.NEQ) == fct.Val && (b.Op == token.NEQ || b.Op == token.EQL) {
+									okHead = true
+								}
+							}
+							if x, op, c, ok := cmpConst(info, fct.Cond); ok && head != nil {
+								if lc, isCall := ast.Unparen(x).(*ast.CallExpr); isCall && core.CalleeName(info, lc) == "builtin.len" && len(lc.Args) == 1 && core.VarOf(info, lc.Args[0]) == head {
+									if !fct.Val {
+										op = negate(op)
+									}
+									if (op == token.GTR && c == 0) || (op == token.NEQ && c == 0) || (op == token.GEQ && c == 1) {
+										okHead = true
+									}
+								}
+							}
+						}
+						if !okFound || !okHead {
+							okUses = false
+						}
+						return true
+					})
+					if uses > 0 && okUses {
+						guarded = true
+					}
+				}
+			}
 			r.Check(found && guarded, rule, f, what, pos,
-				callee+"(_, \""+delim+"\") with every slice at the result guarded by result > 0",
+				callee+"(_, \""+delim+"\") with every slice at the result guarded by result > 0 (or strings.Cut with `found && head != \"\"`)",
 				"sibling does not locate the boundary with "+callee+"(_, \""+delim+"\") > 0 like the other reference parsers; they would disagree on where the package path ends")
 		}
 		check("strings.Index", "[", "search bounded by the first '['")
@@ -468,4 +547,38 @@ func c15R4(p *core.Program, r *core.Report) {
 			r.Check(okRet, rule, pn, "the walk callback keeps descending (returns true)", body.Pos(), "all returns are `return true`", "the Walk callback can return false: nested type arguments below that node are not rewritten")
 		}
 	}
+}
+
+// printerDelimiters: the distinct bytes of every constant string / rune / byte the function can emit
+// (literal operands of writes, of concatenations and of strings.Join), sorted.
+func printerDelimiters(f *core.Func) []string {
+	info := f.Info()
+	set := map[string]bool{}
+	ast.Inspect(f.Body, func(n ast.Node) bool {
+		lit, ok := n.(*ast.BasicLit)
+		if !ok || (lit.Kind != token.STRING && lit.Kind != token.CHAR) {
+			return true
+		}
+		tv := info.Types[lit]
+		if tv.Value == nil {
+			return true
+		}
+		switch tv.Value.Kind() {
+		case constant.String:
+			for _, ch := range constant.StringVal(tv.Value) {
+				set[string(ch)] = true
+			}
+		case constant.Int:
+			if v, ok := constant.Int64Val(tv.Value); ok {
+				set[string(rune(v))] = true
+			}
+		}
+		return true
+	})
+	var out []string
+	for k := range set {
+		out = append(out, k)
+	}
+	sort.Strings(out)
+	return out
 }
